@@ -281,12 +281,18 @@ impl WebSocket for MemWs {
         Poll::Ready(Ok(()))
     }
 
-    fn poll_close_unpin(&mut self, _cx: &mut Context<'_>) -> Poll<Result<(), Error>> {
+    fn poll_close_unpin(&mut self, cx: &mut Context<'_>) -> Poll<Result<(), Error>> {
         let mut l = self.link.lock();
         l.calls += 1;
         let side = self.side;
         if l.dirs[side].cut {
             return Poll::Ready(Err(ws_err()));
+        }
+        // closing means flushing what was sent and putting the Close message behind it: a transport whose send side
+        // is backed up (the peer does not read) cannot complete that
+        if !l.dirs[side].sink_closed && l.dirs[side].inflight.len() + l.dirs[side].ready.len() >= l.dirs[side].cap {
+            l.dirs[side].writer_waker = Some(cx.waker().clone());
+            return Poll::Pending;
         }
         if !l.dirs[side].sink_closed {
             l.wire.push(WireEv {
